@@ -217,7 +217,20 @@ example : hardlink (copyHardlink (setSymlink new (some [97])) (some [98])) = som
 
 /-! ### the small fields -/
 
-theorem fflags_get_set (e : Entry) (s c : Nat) : fflags (setFflags e s c) = (s % two64, c % two64) := rfl
+/-- `set_fflags`: the bitmaps are returned as given and the text is regenerated from them -/
+theorem fflags_get_set (e : Entry) (s c : Nat) :
+    fflags (setFflags e s c) = (s % two64, c % two64) ∧
+    fflagsTextV (setFflags e s c) =
+      if s % two64 = 0 ∧ c % two64 = 0 then none else fflagstostr (s % two64) (c % two64) := by
+  simp [fflags, fflagsTextV, setFflags]
+
+/-- `copy_fflags_text`: the text is returned as given, the bitmaps are what its known tokens say -/
+theorem fflags_text_get_set (e : Entry) (t : Bytes) :
+    fflagsTextV (copyFflagsText e t) = some t ∧ fflags (copyFflagsText e t) = ((strtofflags t).1, (strtofflags t).2.1) := by
+  simp [fflags, fflagsTextV, copyFflagsText]
+
+example : strtofflags ("nodump,sappnd bogus".toList.map Char.toNat) = (96, 0, some 14) := by decide
+example : fflagstostr 16 64 = some ("schg,dump".toList.map Char.toNat) := by decide
 theorem symlink_type_get_set (e : Entry) (t : Int) : symlinkType (setSymlinkType e t) = t := rfl
 theorem mac_metadata_get_set (e : Entry) (v : Option Bytes) : macMetadata (copyMacMetadata e v) = normMac v := rfl
 
